@@ -12,10 +12,12 @@
 EXTENDS Client, ClientGroups, Json
 
 CONSTANTS ScriptLen,   \* emit a script when it has this many steps
-          FaultGate    \* a fault is injected with probability 1/FaultGate per environment step
+          FaultGate,   \* a fault is injected with probability 1/FaultGate per environment step
+          HoldGate     \* likewise for the start of back-pressure on the transport
 
-VARIABLE script
-gvars == <<vars, script>>
+VARIABLES script,
+          held      \* back-pressure on the transport: "no" | "armed" (the send task may still start one write) | "stuck" (it is inside that write)
+gvars == <<vars, script, held>>
 
 Lbl ==
   LET startedNow == {h \in Ops : fe[h].st = "idle" /\ fe'[h].st = "alloc"}
@@ -30,6 +32,8 @@ Lbl ==
      ELSE IF unsubbed # {} THEN <<[op |-> "unsub", h |-> CHOOSE h \in unsubbed : TRUE]>>
      ELSE IF dropped # {} THEN <<[op |-> "drop", h |-> CHOOSE h \in dropped : TRUE]>>
      ELSE IF fault' # fault THEN <<[op |-> "fault", f |-> CHOOSE f \in fault' : TRUE]>>
+     ELSE IF held = "no" /\ held' = "armed" THEN <<[op |-> "hold"]>>
+     ELSE IF held # "no" /\ held' = "no" THEN <<[op |-> "release"]>>
      ELSE <<>>
 
 (* ---- one randomly drawn text of the peer ---- *)
@@ -75,24 +79,31 @@ OneText ==
 (* TLC evaluates function constructors lazily; the random draw inside must be frozen before the text is used twice *)
 Frozen(m) == IF m.t = "array" THEN [m EXCEPT !.elems = [i \in 1..Len(m.elems) |-> m.elems[i]]] ELSE m
 
-GInit == Init /\ script = <<>>
+GInit == Init /\ script = <<>> /\ held = "no"
 (* the client still has steps of its own to take (the harness lets it run between two environment steps, so most     *)
 (* environment steps are taken from a state where it has none; a few are taken while it is busy)                         *)
-Busy == toBack # <<>> \/ inq # <<>> \/ fwd # <<>> \/ \E h \in Ops : fe[h].st \in {"alloc", "ready"}
+Busy == (toBack # <<>> /\ held # "stuck") \/ inq # <<>> \/ fwd # <<>> \/ \E h \in Ops : fe[h].st \in {"alloc", "ready"}
+(* the send task under back-pressure: once it has started a write it takes no further step until released *)
+SendTaskStep == /\ held # "stuck" /\ (StRecv \/ StSendFails)
+                /\ held' = IF held = "armed" /\ HeadSends THEN "stuck" ELSE held
+OtherShut == RtRecvFails \/ StNoticeClosed \/ RtNoticeClosed \/ RtHandOver \/ StCloseFront \/ StHandOver \/ StEnd \/ WdRecv \/ ManagerDrop
 GStep ==
-  \/ FeNext \/ StreamInt \/ TaskNext \/ ShutNext
+  \/ (FeNext \/ StreamInt \/ RtRecv \/ RtForward \/ OtherShut) /\ UNCHANGED held
+  \/ SendTaskStep
   \/ /\ ~Busy \/ Gate(6)
-     /\ \/ AppStart
-        \/ StreamPoll
-        \/ Gate(3) /\ StreamLeave
-        \/ Gate(FaultGate) /\ FaultNext
-        \/ rt = "run" /\ \E m \in OneText : PeerSend(m)
+     /\ \/ AppStart /\ UNCHANGED held
+        \/ StreamPoll /\ UNCHANGED held
+        \/ (Gate(3) \/ (held = "stuck" /\ Len(toBack) = MaxQueue)) /\ StreamLeave /\ UNCHANGED held     \* the lost-drop corner: try_send into a full queue
+        \/ Gate(FaultGate) /\ FaultNext /\ UNCHANGED held
+        \/ rt = "run" /\ (\E m \in OneText : PeerSend(m)) /\ UNCHANGED held
+  \/ /\ held = "no" /\ st = "run" /\ Gate(HoldGate) /\ held' = "armed" /\ UNCHANGED vars
+  \/ /\ held # "no" /\ (Gate(8) \/ (held = "stuck" /\ Len(toBack) = MaxQueue /\ Gate(2))) /\ held' = "no" /\ UNCHANGED vars
 GNext ==
   \/ /\ Len(script) < ScriptLen
      /\ GStep
      /\ script' = script \o Lbl
   \/ /\ Len(script) < ScriptLen /\ ~mgrAlive            \* the client is gone: nothing but late starts is left to script
-     /\ script' = Append(script, [op |-> "noop"]) /\ UNCHANGED vars
+     /\ script' = Append(script, [op |-> "noop"]) /\ UNCHANGED <<vars, held>>
   \/ /\ Len(script) = ScriptLen                          \* evaluated once, in the state the simulator has chosen
      /\ PrintT(<<"REPLAY", ToJson([script |-> script])>>)
      /\ FALSE /\ UNCHANGED gvars
